@@ -87,6 +87,10 @@ def gen_case(seed, tier):
             # is there from start to end is reported exactly once
             n = prefill['n'] = rng.choice((150, 210, 260))
             progs['c0'] = [{'op': rng.choice(('iter', 'reversed', 'iterkeys'))} for _ in range(rng.choice((1, 2)))]
+            if rng.random() < 0.5:
+                # the loop body writes to the cache (waiting for the lock if need be) part-way through the iteration
+                progs['c0'].append({'op': 'iter_mixed', 'take': rng.choice((1, 40, 100, 130)), 'reverse': rng.random() < 0.3,
+                                    'then': {'op': 'set', 'k': 30000, 'v': uniq_value(rng, 0, 99, big_n), 'retry': True}})
             for ci in range(1, rng.choice((2, 3))):
                 prog = []
                 for j in range(rng.randint(3, 8)):
@@ -201,7 +205,7 @@ def prefill_state(prefill, keys):
 
 
 def check_history(history, violations, probes, prefill=None):
-    ops = [h for h in history if h['op']['op'] not in ('iter', 'reversed', 'iterkeys')]
+    ops = [h for h in history if h['op']['op'] not in ('iter', 'reversed', 'iterkeys', 'iter_mixed')]
     init = frozenset()
     if prefill:
         keys = []
@@ -266,9 +270,9 @@ def check_iter_prefill(case, out, violations, probes):
     hist = out['history']
     touched = {h['op']['k'] for h in hist if 'k' in h['op'] and h['op']['op'] in ('delete', 'pop', 'delitem', 'set', 'add', 'setitem')}
     stable = [fp(10000 + i) for i in range(pre['n']) if 10000 + i not in touched]
-    known = {fp(10000 + i) for i in range(pre['n'])} | {fp(h['op']['k']) for h in hist if 'k' in h['op']}
+    known = {fp(10000 + i) for i in range(pre['n'])} | {fp(h['op']['k']) for h in hist if 'k' in h['op']} | {fp(30000)}
     for it in hist:
-        if it['op']['op'] not in ('iter', 'reversed', 'iterkeys') or it.get('ret') is None or it['res'][0] != 'ok':
+        if it['op']['op'] not in ('iter', 'reversed', 'iterkeys', 'iter_mixed') or it.get('ret') is None or it['res'][0] != 'ok':
             continue
         keys = json.loads(it['res'][1][5:])
         probes['iterations_over_pages'] = probes.get('iterations_over_pages', 0) + 1
